@@ -111,14 +111,17 @@ Qed.
 
 Lemma leaked_spec s L : Rel s L -> forall q, In q (leaked s) <-> L q.
 Proof.
-  intros R q. unfold leaked. rewrite filter_In, <- in_rev. split.
+  intros R q. unfold leaked. rewrite rev_append_rev, app_nil_r, filter_In, <- in_rev. split.
   - intros [_ H]. now apply (r_live _ _ R).
   - intros H. apply (r_live _ _ R) in H. split; [|exact H].
     apply (r_ids _ _ R). now apply (r_seen _ _ R).
 Qed.
 
 Lemma leaked_nodup s L : Rel s L -> NoDup (leaked s).
-Proof. intros R. unfold leaked. apply NoDup_filter. apply NoDup_rev. exact (r_nodup _ _ R). Qed.
+Proof.
+  intros R. unfold leaked. rewrite rev_append_rev, app_nil_r.
+  apply NoDup_filter. apply NoDup_rev. exact (r_nodup _ _ R).
+Qed.
 
 (* the monitor accepts exactly the traces in which every free/realloc hits a block live at
    that moment, no allocation returns a live block, and nothing is live at the end *)
